@@ -184,14 +184,18 @@ class TxnType(DataflowTransactionContext):  # pylint: disable=too-few-public-met
 
             if is_value_matches_key(key, arg1, TypeEnum) and value_3 is not None:
                 compared_type = transaction_type_to_tealer_type(value_3)
-                # None: the constant is not a transaction type, nothing is known about the result.
                 if compared_type is not None:
                     true_values, false_values = self._get_typeenum_values(compared_type)
+                else:
+                    # the constant is not a transaction type: the field is never equal to it.
+                    true_values, false_values = set(), set(U)
             elif is_value_matches_key(key, arg2, TypeEnum) and value_2 is not None:
                 compared_type = transaction_type_to_tealer_type(value_2)
-                # None: the constant is not a transaction type, nothing is known about the result.
                 if compared_type is not None:
                     true_values, false_values = self._get_typeenum_values(compared_type)
+                else:
+                    # the constant is not a transaction type: the field is never equal to it.
+                    true_values, false_values = set(), set(U)
 
             if is_value_matches_key(key, arg1, OnCompletion) and value_3 is not None:
                 compared_on_completion = oncompletion_to_tealer_type(value_3)
@@ -199,12 +203,18 @@ class TxnType(DataflowTransactionContext):  # pylint: disable=too-few-public-met
                     true_values, false_values = set([compared_on_completion]), set(
                         APPLICATION_TRANSACTION_TYPES
                     ) - set([compared_on_completion])
+                else:
+                    # the constant is not a OnCompletion value: the field is never equal to it.
+                    true_values, false_values = set(), set(U)
             elif is_value_matches_key(key, arg2, OnCompletion) and value_2 is not None:
                 compared_on_completion = oncompletion_to_tealer_type(value_2)
                 if compared_on_completion is not None:
                     true_values, false_values = set([compared_on_completion]), set(
                         APPLICATION_TRANSACTION_TYPES
                     ) - set([compared_on_completion])
+                else:
+                    # the constant is not a OnCompletion value: the field is never equal to it.
+                    true_values, false_values = set(), set(U)
 
             if true_values is not None and false_values is not None:
                 if isinstance(ins1, Eq):
